@@ -44,7 +44,7 @@ def arr(rng, lo=1, hi=50, increasing=False):
     m = int(rng.integers(lo, hi + 1))
     t = int(rng.integers(0, 4))
     if HUGE["on"] and hi >= 40 and lo < hi:
-        m = int(rng.integers(66000, 90001))       # a day of per-second values: beyond 2**16 elements
+        m = gen.huge_size(rng)       # a day of per-second values: beyond 2**16 elements
         t = 0 if t in (1, 3) else t
     if hi >= 40 and lo < hi and rng.integers(0, 1000) == 0:
         m = int(rng.integers(1001, 3001))       # beyond the sizes at which NumPy summarises, blocks or switches algorithm
@@ -403,7 +403,7 @@ def run_case(ctx, kind_, idx):
                         return fail("array_after_history", step=op)
                 ctx.nontriv("c17", idx)
             elif h == "average":
-                m = int(rng.integers(1, 50)) if not HUGE["on"] else int(rng.integers(66000, 90001))
+                m = int(rng.integers(1, 50)) if not HUGE["on"] else gen.huge_size(rng)
                 x = np.cumsum(rng.uniform(0.1, 2, m))
                 y = arr(rng, m, m)
                 n = int(rng.integers(1, 17))
